@@ -4,18 +4,36 @@ import json, os, subprocess
 ROOT = os.path.dirname(os.path.dirname(os.path.abspath(__file__)))
 
 ENG = "tla-trace"
+T = "TLC: "
 CHECKS = {
- "C01": ("model_checking", "TLC: exhaustive MC of DeflateParams (level clamp) + trace validation of every one-shot call against the RFC 1951/1950 acceptor spec and DeflateContract", "3/C01"),
- "C09": ("model_checking", "TLC: exhaustive MC of the header function over all configurations + acceptor-validated header/trailer of real compressor output", "3/C09"),
- "C10": ("model_checking", "TLC: exhaustive MC of routing/capability per configuration + token-level statistics of real output from the TLA+ acceptor judged against DeflateParams requirements", "3/C10"),
- "C11": ("model_checking", "TLC: exhaustive MC of declared window vs route distance capability + acceptor-measured maximum distance of real output vs declared window", "3/C11"),
+ "C01": ("model_checking", T+"exhaustive MC of DeflateParams (level clamp) + trace validation of every one-shot call against the RFC 1951/1950 acceptor spec", "3/C01"),
+ "C02": ("model_checking", T+"trace validation of every compress()/compress_to_output() call against DeflateContract and of the concatenated output against the acceptor; MC of DeflateParams", "3/C02"),
+ "C03": ("model_checking", T+"trace validation of all decoder entry points against InflateContract with the acceptor's verdict on each stream", "3/C03"),
+ "C04": ("model_checking", T+"acceptor (Produce mode) judges mutated streams, InflateContract forbids Done on rejected/starved streams and rejection of proper prefixes", "3/C04"),
+ "C05": ("model_checking", T+"trace validation of random call histories (all flag sets, geometries, positions) against the total-function rules of InflateContract", "3/C05"),
+ "C06": ("model_checking", T+"acceptor's exact encoded length vs summed consumed counts at Done, trailing bytes, all entry points", "3/C06"),
+ "C07": ("model_checking", T+"schedule-equivalence rules of the trace spec over every cut point / budget schedule, valid and invalid streams", "3/C07"),
+ "C08": ("model_checking", T+"geometry sweep validated against the region/status rules of InflateContract; vector-helper limit rules", "3/C08"),
+ "C09": ("model_checking", T+"exhaustive MC of the header function over all configurations + acceptor-validated header/trailer of real compressor output", "3/C09"),
+ "C10": ("model_checking", T+"exhaustive MC of routing/capability per configuration + acceptor token statistics of real output judged against DeflateParams requirements", "3/C10"),
+ "C11": ("model_checking", T+"exhaustive MC of declared window vs route distance capability + acceptor-measured maximum distance vs declared window", "3/C11"),
+ "C12": ("model_checking", T+"acceptor in prefix mode at every qualifying flush return; full-flush cut tracking in the acceptor", "3/C12"),
+ "C13": ("model_checking", T+"trace validation of random and canonical inflate() call sequences against the InflateStream contract rules", "3/C13"),
+ "C14": ("model_checking", T+"trace validation of random deflate() call sequences against the DeflateStream contract rules; output parsed by the acceptor", "3/C14"),
+ "C15": ("model_checking", T+"Bound(n) transcribed in spec/CApi.tla compared with the C functions; one-call compression into bound-sized guard-paged destinations validated by the trace spec", "3/C15"),
+ "C16": ("model_checking", T+"every checksum call recomputed by TLC from the definitions in spec/Checksums.tla (all splits; scalar and simd builds)", "3/C16"),
+ "C17": ("model_checking", T+"trace validation of C calls against the CApi accounting/equality rules with a Rust twin; guard pages observe out-of-range access", "3/C17"),
+ "C18": ("model_checking", T+"pair rules of the trace spec: reset object vs fresh object vs second fresh object under identical call sequences", "3/C18"),
+ "C19": ("model_checking", T+"pair rules for clone/serde/boundary forks; boundary records checked against the acceptor's block list", "3/C19"),
 }
-TEXT = {
- "C01": "Every explored (input, level, format) is compressed by the real one-shot helpers; the bytes are parsed token by token by the RFC 1951/1950 acceptor written in TLA+ (independent of the crate) and must decode to the input and end exactly at the last byte; the crate's own decoder must return the input. DeflateParams is model-checked over all levels/strategies/window bits (level clamp). Right level: losslessness is a data-path property that only validated executions bind to the code; the model gives exhaustiveness over the configuration space.",
+GEN = "Real executions recorded by the harness are validated line by line by TLC against spec/trace/Trace.tla (contract rules + RFC acceptor); the implementation-shaped models that TLC checks exhaustively at small constants are listed in the evidence file. Right level: the property quantifies over schedules/inputs that only a specification can enumerate and only trace validation binds to the code."
+TEXT = {k: GEN for k in CHECKS}
+TEXT.update({
+ "C01": "Every explored (input, level, format) is compressed by the real one-shot helpers; the bytes are parsed token by token by the RFC 1951/1950 acceptor written in TLA+ (independent of the crate) and must decode to the input and end exactly at the last byte; the crate's own decoder must return the input. DeflateParams is model-checked over all levels/strategies/window bits (level clamp).",
  "C09": "The header function is a finite function and is checked for all configurations by TLC (RFC 1950 validity); real output of every configuration is parsed by the Zlib acceptor, which verifies header fields and the big-endian Adler-32 trailer against the input.",
  "C10": "DeflateParams (routing and route capabilities, transcribed from the code) is checked by TLC for all configurations; the real compressor is run for every configuration on data built to tempt forbidden tokens and the acceptor's token statistics are judged against the requirements derived in the spec.",
  "C11": "Model: for all configurations the route's maximum distance is bounded by the declared window (TLC, exhaustive). Code: every configuration with window bits 8..15 is run on data whose redundancy lies just beyond the declared window; the acceptor's measured maximum distance must not exceed the declared window.",
-}
+})
 NOTE = "Trusted: TLC/SANY + CommunityModules; the RFC transcription in spec/Rfc1951.tla; the harness's logging (self-tested by field corruption); model exhaustiveness is relative to scaled constants, real constants are covered by validated executions (sampled, seed-varied)."
 
 def main():
